@@ -6,7 +6,7 @@ UPDATE_ALL = [func("bt.core.StrategyBase.update", variant=v) for v in ("flat", "
 ID = "C07"
 META = {
     "assumptions": ['A-REAL', 'A-COMM', 'A-T', 'A-IND', 'A-CYTHON', 'A-SOLVER', 'A-ENGINE'],
-    "explanation": "transact/outlay/adjust under functional contracts (every field of the post-state); lemmas: a trade moves exactly q*p*mult + half-spread (or custom-price difference) as outlay and comm(q, p*mult) as fee, once, to the security's own parent, never as a flow, nobody else is charged; update writes cash/fees/flows rows on every call and resets the accumulators only on a date change; security update flushes the pending outlay into the row of the current index; allocate's sizing probes book nothing (loop invariant 'nothing booked').",
+    "explanation": "transact/outlay/adjust under functional contracts (every field of the post-state); lemmas: a trade moves exactly q*p*mult + half-spread (or custom-price difference) as outlay and comm(q, p*mult) as fee, once, to the security's own parent, never as a flow, nobody else is charged; update writes cash/fees/flows rows on every call and resets the accumulators only on a date change; security update flushes the pending outlay into the row of the current index; allocate's sizing probes book nothing (loop invariant 'nothing booked'); set_commissions sets the function on the receiver and makes exactly one recursive call per strategy child (propagation contract: it reaches every descendant strategy).",
 }
 MANIFEST_ENTRY = {
     "level_text": 'Deductive proof of the per-trade and per-update ledger clauses for all inputs; the per-date reconciliation is their sum over the operations of the date.',
@@ -20,6 +20,7 @@ def tasks(tier, seed):
         func("bt.core.SecurityBase.transact"),
         func("bt.core.SecurityBase.outlay"),
         func("bt.core.StrategyBase.adjust"),
+        func("bt.core.StrategyBase.set_commissions"),      # the fee schedule a security is charged by is its parent's: inherited by every sub-strategy, at any depth
         func("bt.core.SecurityBase.allocate"),
         *UPDATE_ALL,
         func("bt.core.SecurityBase.update"),
